@@ -42,13 +42,16 @@ var siteRank = map[site]int{sTask: 0, sCall: 1, sIncFile: 2, sIncStmt: 3, sGloba
 type kind int
 
 const (
-	kLit  kind = iota // literal string
-	kTmpl             // template over the lower-priority value of the same name: 'site({{.N | default "none"}})'
-	kSh               // sh: printf
-	kRef              // ref: to a helper variable that lives in the OS environment (lowest priority)
+	kLit       kind = iota // literal string
+	kTmpl                  // template over the lower-priority value of the same name: 'site({{.N | default "none"}})'
+	kSh                    // sh: printf
+	kRef                   // ref: to a helper variable that lives in the OS environment (lowest priority)
+	kBackWrap              // refers back to the lower-priority value of the SAME name: 'site({{.N | default "none"}})' (task vars / call vars only)
+	kBackIdiom             // the documented idiom '{{.N | default "fallback"}}' (task vars / call vars only)
+	kSibling               // a second variable of the same tier: 'sibling({{.N | default "none"}})'
 )
 
-var kindName = map[kind]string{kLit: "lit", kTmpl: "tmpl", kSh: "sh", kRef: "ref"}
+var kindName = map[kind]string{kLit: "lit", kTmpl: "tmpl", kSh: "sh", kRef: "ref", kBackWrap: "backwrap", kBackIdiom: "backidiom", kSibling: "sibling"}
 
 // sites whose value can only be a literal string
 func literalOnly(s site) bool { return s == sCLI || s == sEnv }
@@ -67,6 +70,7 @@ type scenario struct {
 	Name     string // the probed variable
 	Defs     []def  // sorted, most important first (vars, special)
 	Uniform  bool   // part of the exhaustively enumerated uniform-kind lattice
+	SibAt    *site  // sibling family: the tier that also defines SY_<name> as a template over the probed name; the probe reads the sibling
 	Comp     []def  // if the winning definition is a template: where (and how) its companion variable is defined, most important first
 	Env      envCase
 	idx      int
@@ -86,6 +90,9 @@ func (sc *scenario) key() string {
 		return fmt.Sprintf("env|pos%d|%s", sc.Pos, sc.Env.key())
 	}
 	k := fmt.Sprintf("%s|pos%d|%s|%s", sc.Family, sc.Pos, sc.Name, strings.Join(ds, ","))
+	if sc.SibAt != nil {
+		k += "|sibling@" + siteName[*sc.SibAt]
+	}
 	if len(sc.Comp) > 0 {
 		var cs []string
 		for _, d := range sc.Comp {
@@ -129,19 +136,40 @@ func (sc *scenario) companions(s site) []def {
 // important definition wins; a template definition embeds the value of the
 // most important definition of its companion.
 func (sc *scenario) expectValue() string {
+	if sc.SibAt != nil {
+		// the sibling is computed at its own tier from that tier's value of the
+		// name, whatever higher tiers define
+		d, _ := sc.def(*sc.SibAt)
+		return "sibling(" + litValue(d) + ")"
+	}
 	if len(sc.Defs) == 0 {
 		return "unset"
 	}
 	d := sc.Defs[0]
-	if d.Kind != kTmpl {
-		return litValue(d)
+	switch d.Kind {
+	case kTmpl:
+		inner := "none"
+		if c := sc.companions(d.Site); len(c) > 0 {
+			inner = litValue(c[0])
+		}
+		return siteName[d.Site] + "(" + inner + ")"
+	case kBackWrap, kBackIdiom:
+		// documented: "Variables declared in the task definition" may refer to the
+		// value of the same name given by the caller / the CLI (usage.mdx:
+		// RECIPIENT: '{{default "World" .RECIPIENT}}', USER_NAME: '{{.USER_NAME | default "DefaultUser"}}')
+		inner := map[kind]string{kBackWrap: "none", kBackIdiom: "fallback"}[d.Kind]
+		if len(sc.Defs) > 1 {
+			inner = litValue(sc.Defs[1])
+		}
+		if d.Kind == kBackIdiom {
+			return inner
+		}
+		return siteName[d.Site] + "(" + inner + ")"
 	}
-	inner := "none"
-	if c := sc.companions(d.Site); len(c) > 0 {
-		inner = litValue(c[0])
-	}
-	return siteName[d.Site] + "(" + inner + ")"
+	return litValue(d)
 }
+
+func sibName(name string) string { return "SY_" + strings.TrimPrefix(name, "PV_") }
 
 type entry struct {
 	name string
@@ -153,6 +181,9 @@ func (sc *scenario) entries(s site) []entry {
 	var out []entry
 	if d, ok := sc.def(s); ok {
 		out = append(out, entry{sc.Name, d})
+		if sc.SibAt != nil && *sc.SibAt == s {
+			out = append(out, entry{sibName(sc.Name), def{s, kSibling}})
+		}
 	}
 	for _, d := range sc.Defs {
 		if d.Kind != kTmpl {
@@ -171,6 +202,12 @@ func (sc *scenario) entries(s site) []entry {
 func (sc *scenario) yamlDef(indent string, e entry) string {
 	d := e.d
 	switch d.Kind {
+	case kBackWrap:
+		return indent + e.name + ": " + yq(siteName[d.Site]+`({{.`+sc.Name+` | default "none"}})`) + "\n"
+	case kBackIdiom:
+		return indent + e.name + ": " + yq(`{{.`+sc.Name+` | default "fallback"}}`) + "\n"
+	case kSibling:
+		return indent + e.name + ": " + yq(`sibling({{.`+sc.Name+` | default "none"}})`) + "\n"
 	case kTmpl:
 		return indent + e.name + ": " + yq(siteName[d.Site]+`({{.`+companionName(sc.Name, d.Site)+` | default "none"}})`) + "\n"
 	case kSh:
@@ -207,7 +244,11 @@ func (sc *scenario) varsBlock(indent string, s site) string {
 
 // probeCmd prints the value the template engine sees, and the working directory.
 func (sc *scenario) probeCmds() string {
-	tmpl := `printf '%s\n' 'P|{{.` + sc.Name + ` | default "unset"}}|'`
+	name := sc.Name
+	if sc.SibAt != nil {
+		name = sibName(sc.Name)
+	}
+	tmpl := `printf '%s\n' 'P|{{.` + name + ` | default "unset"}}|'`
 	out := "      - " + yq(tmpl) + "\n"
 	if sc.Family == "special" {
 		out += "      - " + yq(`printf 'D|%s|\n' "$(pwd)"`) + "\n"
@@ -409,6 +450,87 @@ func generate() (list []*scenario, lattice map[string]int) {
 			})
 		}
 	}
+	// (1c) refer-back: the definition in task vars / call vars is a template over
+	// the lower-priority value of the same name (documented idiom), the lower
+	// definition is literal or dynamic; a third, still lower definition may exist
+	for pos := 0; pos < 3; pos++ {
+		for _, hs := range []site{sTask, sCall} {
+			lows := []site{}
+			for _, l := range append(sitesFor(pos, true), sGlobalTF, sCLI) {
+				if siteRank[l] > siteRank[hs] {
+					lows = append(lows, l)
+				}
+			}
+			for _, l := range lows {
+				for _, lk := range []kind{kLit, kSh} {
+					if literalOnly(l) && lk == kSh {
+						continue
+					}
+					for _, hk := range []kind{kBackWrap, kBackIdiom} {
+						for _, below := range []bool{false, true} {
+							defs := []def{{hs, hk}, {l, lk}}
+							if below {
+								if l == sEnv {
+									continue
+								}
+								defs = append(defs, def{sEnv, kLit})
+							}
+							sortDefs(defs)
+							if add(&scenario{Family: "vars", Pos: pos, Name: name, Defs: defs, Uniform: true}) {
+								lattice[fmt.Sprintf("vars.referback.pos%d", pos)]++
+							}
+						}
+					}
+				}
+			}
+		}
+	}
+	// (1d) sibling of a shadowed variable: tier L defines the name (literal or
+	// sh:) and a sibling 'sibling({{.NAME}})'; a higher tier H redefines the
+	// name; the probe reads the sibling, which is computed at tier L from tier
+	// L's value. L in {root globals, included-file vars}: the vars of an include
+	// statement are evaluated at load time (known finding) and call vars are
+	// evaluated in the caller's scope, so for them a sibling is not "computed at
+	// tier L" and the documentation does not say what it is.
+	for pos := 0; pos < 3; pos++ {
+		ls := []site{sGlobalTF}
+		if pos > 0 {
+			ls = append(ls, sIncFile)
+		}
+		for _, l := range ls {
+			l := l
+			highs := [][]site{{}}
+			var above []site
+			for _, hsite := range sitesFor(pos, false) {
+				// an included file's top-level vars are merged into the root's
+				// globals when the Taskfiles are loaded (they replace a root global
+				// of the same name for every task, root tasks included): that is
+				// the include model's subject (C08), so the included file is not
+				// used as the higher tier of a root global
+				if siteRank[hsite] < siteRank[l] && !(l == sGlobalTF && hsite == sIncFile) {
+					above = append(above, hsite)
+				}
+			}
+			for _, a := range above {
+				highs = append(highs, []site{a})
+			}
+			if len(above) > 1 {
+				highs = append(highs, above)
+			}
+			for _, hset := range highs {
+				for _, lk := range []kind{kLit, kSh} {
+					defs := []def{{l, lk}}
+					for _, a := range hset {
+						defs = append(defs, def{a, kLit})
+					}
+					sortDefs(defs)
+					if add(&scenario{Family: "vars", Pos: pos, Name: name, Defs: defs, SibAt: &l, Uniform: true}) {
+						lattice[fmt.Sprintf("vars.sibling.pos%d", pos)]++
+					}
+				}
+			}
+		}
+	}
 	// (2) mixed kinds, seeded
 	n := h.Pick(400, 20000)
 	r := h.Rng(10, 2)
@@ -510,8 +632,10 @@ func label(elem string) string {
 		}
 	}
 	switch elem {
-	case "none", "unset":
+	case "none", "unset", "fallback", "sibling":
 		return elem
+	case "procenv-empty":
+		return "procenv(empty)"
 	}
 	return "other"
 }
@@ -588,9 +712,42 @@ func (sc *scenario) judge(id, proj, bin string, res h.Result) (v verdict, observ
 		return verdict{sig: fmt.Sprintf("%s | special | %s | built-in value shadows definition at %s", id, sc.Name, siteName[sc.Defs[0].Site]),
 			what: fmt.Sprintf("special variable %s is defined at %s but the template saw %q", sc.Name, siteName[sc.Defs[0].Site], val)}, val, true
 	}
+	if sc.SibAt != nil {
+		if val == sc.expected {
+			return verdict{ok: true}, val, true
+		}
+		got := "other"
+		if c := chain(val); len(c) == 2 && c[0] == "sibling" {
+			got = label(c[1])
+		}
+		d, _ := sc.def(*sc.SibAt)
+		return verdict{sig: fmt.Sprintf("%s | sibling | tier=%s kind=%s | got=%s", id, siteName[*sc.SibAt], kindName[d.Kind], got),
+			what: fmt.Sprintf("a variable defined at %s as a template over its sibling %s (%s at the same tier, redefined at a higher tier) is %q, the tier's own value gives %q", siteName[*sc.SibAt], sc.Name, kindName[d.Kind], val, sc.expected)}, val, true
+	}
 	fam := "vars"
 	if sc.Family == "env" {
 		fam = "env experiment=" + map[bool]string{false: "off", true: "on"}[sc.Env.Experiment]
+		if val == "" {
+			val = "procenv-empty"
+		}
+		v := judgeChain(id, fam, sc.expected, val)
+		// the command of a dynamic (sh:) variable is a command too: with the
+		// experiment off the process environment wins there as well. What it
+		// sees when the process environment does not define the name is not
+		// stated (task env is not in scope of task vars) and is not judged.
+		if v.ok && sc.Env.Proc != 0 && !sc.Env.Experiment {
+			if sv, ok := probe(res.Stdout, "S"); ok {
+				if sv == "" {
+					sv = "procenv-empty"
+				}
+				if sv != sc.Env.procValue() {
+					lo := label(sv)
+					return verdict{sig: fmt.Sprintf("%s | %s | reader=sh-variable | got=%s want=%s", id, fam, lo, label(sc.Env.procValue())),
+						what: fmt.Sprintf("the command of a dynamic variable saw %q for a name the process environment sets to %q", sv, sc.Env.procValue())}, val + " sh:" + sv, true
+				}
+			}
+		}
+		return v, val, true
 	}
 	return judgeChain(id, fam, sc.expected, val), val, true
 }
@@ -723,7 +880,7 @@ func Run(id string, start time.Time) int {
 	rep := h.Report{
 		ID: id, Level: "exploration", Start: start, MinEvents: 500, EventsKey: "probes_observed", Exhaustive: &yes,
 		Rule: "one case = one CLI run in a generated project; the probed name is defined at a subset of the definition sites, each definition carrying a value that names its site and kind, the probe prints {{.NAME}} (or $NAME for the env lattice) and the oracle compares with the value the documented order gives. A template-kind definition at site s is 's({{.L_s}})' where the companion L_s is defined (literal or sh:) at a subset of the lower-priority sites, so the value also shows which definition the template inside the winning definition saw. " +
-			"Enumerated exhaustively (exhaustive=true refers to this sub-space): template variables: every subset of {task vars, call vars, included-Taskfile vars, include-statement vars, OS env} x {no global, root Taskfile global, CLI NAME=value} x uniform kind {literal, sh, ref} x task position {root, include depth 1, depth 2} (sites that do not exist for a position dropped, duplicates removed); template kind: position x winning site w (template) x every subset C of the lower-priority sites defining the companion x companion kind {literal, sh} x {name defined at w only, also at C}; special variables: 10 names x position x every subset of the Taskfile/CLI sites (literal) in the thorough tier, in the quick tier every subset for 3 seed-chosen names and {} plus singletons for the other 7; env: every subset of {task env, task dotenv file 1, file 2, process env} x {no global, global env, global dotenv} x {experiment off, on} x kind {literal, sh} x position. " +
+			"Enumerated exhaustively (exhaustive=true refers to this sub-space): template variables: every subset of {task vars, call vars, included-Taskfile vars, include-statement vars, OS env} x {no global, root Taskfile global, CLI NAME=value} x uniform kind {literal, sh, ref} x task position {root, include depth 1, depth 2} (sites that do not exist for a position dropped, duplicates removed); template kind: position x winning site w (template) x every subset C of the lower-priority sites defining the companion x companion kind {literal, sh} x {name defined at w only, also at C}; refer-back: position x {task vars, call vars} defining the name as a template over the same name ('site({{.N | default \"none\"}})' and the documented idiom '{{.N | default \"fallback\"}}') x each lower site (literal / sh) x {nothing, OS env} below it; sibling: position x tier L in {root globals, included-file vars} defining the name (literal / sh) and a sibling template over it x {no, each single, all} higher sites redefining the name, the probe reads the sibling; special variables: 10 names x position x every subset of the Taskfile/CLI sites (literal) in the thorough tier, in the quick tier every subset for 3 seed-chosen names and {} plus singletons for the other 7; env: every subset of {task env, task dotenv file 1, file 2} x process env {unset, set, set to the empty string} x {no global, global env, global dotenv} x {experiment off, on} x kind {literal, sh} x position. " +
 			"Seeded: mixed-kind scenarios (each site independently present with p=0.6, kind uniform). distinct key = (family, position, name, site.kind list); non-trivial = at least two definitions are in play (of the name, or of the name and the companion its template reads: a precedence or visibility decision is made) or, for special variables, no site defines it (availability is decided).",
 		Assumptions: []string{
 			"a root Taskfile global and a CLI assignment of one name, an intermediate include's vars at depth 2, global env vs global dotenv of one name, and the OS environment vs a special variable are not ordered by the statement/documentation and are never both defined",
